@@ -405,14 +405,27 @@ def impl_hs(chunks, verbosity=None, detail=None):
     return "RETURNED"
 
 
-def client_start_run(chunks, verbosity=None, detail=None):
+STALL_S = 0.4        # a read on the local socket pair that has not returned after this long is waiting for bytes not yet sent
+
+
+def client_start_run(chunks, verbosity=None, detail=None, tunnel_frames=None):
     """(verbosity, detail: as for impl_hs.)  The real client._main from its first line to the main loop on the REAL ssh.connect (only the ssh process is
     absent: Popen is a stub that leaves us the far end of the socket pair), with the two tunnel file objects that
     ssh.connect returns wrapped in recorders.  The server's bytes are delivered piece by piece: the next piece is
     sent only when the client asks for more than has arrived, the stream is closed after the last.  Returns
     (outcome, events, info): events = ("r", bytes) / ("w", bytes) in program order from the moment ssh.connect has
-    returned — i.e. after the two uploads, which are taken off the far end and counted in info["upload_bytes"]."""
+    returned — i.e. after the two uploads, which are taken off the far end and counted in info["upload_bytes"].
+    Every read on the real socket runs under a watchdog thread: a read that waits for bytes the harness has not sent yet
+    (a reader that insists on N bytes) gets what the real server would have sent anyway — the rest of the stream — after
+    STALL_S, so a run always ENDS (info["read_waits"] counts this).
+    tunnel_frames = the (channel, command, payload) messages the stream carries after the synchronisation string: when
+    given and the handshake is accepted, the client's real multiplexer then reads the tunnel the way the main loop does
+    (select on its read descriptor, Mux.callback when readable); the next piece is delivered only when the descriptor is
+    idle, and at every such moment the messages decoded so far are compared with the messages whose bytes have all been
+    delivered (info["undecoded"] = first moment at which they differ, info["decoded"] = all messages decoded)."""
     import select
+    import threading
+    import time
     import socket
     import types
     import sshuttle.client as client
@@ -420,7 +433,35 @@ def client_start_run(chunks, verbosity=None, detail=None):
     import sshuttle.ssh as ssh
     import sshuttle.helpers as helpers
     keep, ev = [], []
-    st = {"chunks": [bytes(c) for c in chunks if c], "peer": None, "closed": False, "upload_bytes": 0}
+    st = {"chunks": [bytes(c) for c in chunks if c], "peer": None, "closed": False, "upload_bytes": 0,
+          "sent": 0, "reading": None, "read_waits": 0, "decoded": [], "undecoded": None}
+    done = threading.Event()
+
+    def deliver_next():
+        """the next piece of the server's stream, or its end; False when there is nothing left to do"""
+        if st["chunks"]:
+            c = st["chunks"].pop(0)
+            st["peer"].sendall(c)
+            st["sent"] += len(c)
+        elif not st["closed"]:
+            st["peer"].shutdown(socket.SHUT_WR)
+            st["closed"] = True
+        else:
+            return False
+        return True
+
+    def watchdog():
+        while not done.wait(0.05):
+            rd = st["reading"]
+            if rd and time.time() - rd[0] > STALL_S and st["reading"] is rd:
+                st["read_waits"] += 1
+                st.setdefault("first_read_wait", {"asked_for": rd[1], "stream_bytes_delivered": st["sent"]})
+                try:
+                    while deliver_next():
+                        pass
+                except OSError:
+                    pass
+                st["reading"] = None
 
     class FakePopen(object):
         pid = 4242
@@ -447,12 +488,12 @@ def client_start_run(chunks, verbosity=None, detail=None):
     class RecR(Rec):
         def read(self, n=-1):
             if not select.select([self.real], [], [], 0)[0]:
-                if st["chunks"]:
-                    st["peer"].sendall(st["chunks"].pop(0))
-                elif not st["closed"]:
-                    st["peer"].shutdown(socket.SHUT_WR)
-                    st["closed"] = True
-            d = self.real.read(n)
+                deliver_next()
+            st["reading"] = (time.time(), n)
+            try:
+                d = self.real.read(n)
+            finally:
+                st["reading"] = None
             ev.append(("r", bytes(d or b"")))
             return d
 
@@ -494,7 +535,32 @@ def client_start_run(chunks, verbosity=None, detail=None):
         st["queued_at_loop"] = b"".join(bytes(b) for b in mux.outbuf)
         ev.append(("loop", b""))
         mux.flush()                 # what the loop does first when the pipe is writable (shows that writes ARE recorded)
+        if tunnel_frames is not None:
+            read_tunnel(mux)
         raise StopLoop()
+
+    def read_tunnel(mux):
+        msgs = st["decoded"]
+        mux.got_packet = lambda ch, cmd, data: msgs.append((ch, cmd, bytes(data)))
+        ends, at = [], st["stream_len"] - sum(8 + len(d) for _, _, d in tunnel_frames)
+        for _, _, d in tunnel_frames:
+            at += 8 + len(d)
+            ends.append(at)
+        for _ in range(100000):
+            if not mux.ok:
+                break
+            # what ssnet.runonce does for the multiplexer: wait for its read descriptor, then Mux.callback
+            if select.select([mux.rfile], [], [], 0)[0]:
+                mux.callback(mux.rfile)
+                continue
+            # the descriptor is idle: the client will not read again before more arrives
+            complete = sum(1 for e in ends if e <= st["sent"])
+            if st["undecoded"] is None and msgs != list(tunnel_frames[:complete]):
+                st["undecoded"] = {"stream_bytes_delivered": st["sent"], "messages_complete_in_them": complete,
+                                   "messages_decoded": len(msgs),
+                                   "bytes_returned_by_the_reads_of_the_handshake": sum(len(d) for k, d in ev if k == "r")}
+            if not deliver_next():
+                break
     old = (ssh.connect, ssh.ssubprocess, ssnet.runonce, helpers.log, client.log, helpers.verbose)
     ssh.ssubprocess = types.SimpleNamespace(Popen=FakePopen, PIPE=getattr(old[1], "PIPE", -1))
     ssh.connect = connect
@@ -505,6 +571,9 @@ def client_start_run(chunks, verbosity=None, detail=None):
     else:
         helpers.verbose = verbosity
         sys.stderr = LogSink()
+    st["stream_len"] = sum(len(c) for c in st["chunks"])
+    wd = threading.Thread(target=watchdog, daemon=True)
+    wd.start()
     try:
         try:
             client._main(L(), None, FW(), None, "remote.example", None, False, 0, None, None, False, False,
@@ -520,6 +589,8 @@ def client_start_run(chunks, verbosity=None, detail=None):
             outcome = "EXC %s" % type(e).__name__
             exc_detail(detail, e)
     finally:
+        done.set()
+        wd.join(2)
         ssh.connect, ssh.ssubprocess, ssnet.runonce, helpers.log, client.log, helpers.verbose = old
         sys.stdout, sys.stderr = so, se
         for f in list(st.get("files", ())) + [st["peer"]]:
@@ -589,6 +660,8 @@ def client_start_check(ctx, streams, verbosities=(None,)):
             outcome, ev, st = client_start_run(chunks, verb, det)
             ctx.case(("client-start", s, tuple(chunks), verb), nontrivial=True)
             ctx.count("client_start_runs")
+            if st["read_waits"]:
+                ctx.count("client_start_reads_that_waited_for_bytes_not_yet_sent", st["read_waits"])
             ctx.count("client_start_outcome_%s" % outcome.split(" ")[0])
             if verb is not None:
                 ctx.count("client_start_verbosity_%d" % verb)
@@ -610,6 +683,71 @@ def client_start_check(ctx, streams, verbosities=(None,)):
             if ref != outcome.split(" ")[0]:
                 ctx.disagree("client start: outcome on the real ssh.connect differs from the outcome on scripted files",
                              [c.hex() for c in chunks], outcome, ref)
+
+
+WHAT_TUNNEL_STALL = ("the client stopped reading although bytes of the tunnel stream it had already taken off the descriptor "
+                     "were undecoded: messages whose bytes had all been delivered (the server's first frames arriving in the "
+                     "same segment as its synchronisation string) were not decoded while the tunnel's read descriptor was idle "
+                     "— the client's main loop waits on that descriptor, so they stay undecoded until the server happens to send "
+                     "more; the same bytes cut right after the synchronisation string are decoded at once.  The decoded message "
+                     "sequence must depend only on the bytes sent, never on how they are split across reads")
+WHAT_TUNNEL_SEQ = ("the messages the client decoded from the tunnel after the start-up handshake differ from the messages the "
+                   "server sent after its synchronisation string (real client._main on the real ssh.connect, real Mux): the "
+                   "decoded sequence must depend only on the bytes sent, never on how they are split across reads")
+
+
+def client_tunnel_run(noise, frames, cut_at, verbosity=None):
+    """one run of client_start_run with frames after the synchronisation string; cut_at = offsets at which the stream is
+    cut into deliveries.  Returns (what, detail) or None."""
+    s = noise + b"\0\0SSHUTTLE0001" + b"".join(encode_py(*f) for f in frames)
+    pts = [0] + sorted(set(c for c in cut_at if 0 < c < len(s))) + [len(s)]
+    chunks = [s[a:b] for a, b in zip(pts, pts[1:])]
+    det = {}
+    outcome, ev, st = client_start_run(chunks, verbosity, det, tunnel_frames=list(frames))
+    info = {"handshake_outcome": outcome, "deliveries": len(chunks), "read_waits": st["read_waits"],
+            "first_read_wait": st.get("first_read_wait"),
+            "sent": [[c, k, len(d)] for c, k, d in frames], "decoded": [[c, k, len(d)] for c, k, d in st["decoded"]][:20]}
+    if outcome != "1":
+        return ("the client did not accept a stream whose synchronisation string is intact and followed by well-formed "
+                "messages: recognition of the string must not depend on what follows it in the same delivery", dict(info, **det)), st
+    if st["undecoded"]:
+        return (WHAT_TUNNEL_STALL, dict(info, idle_descriptor_with_undecoded_messages=st["undecoded"])), st
+    if st["decoded"] != list(frames):
+        return (WHAT_TUNNEL_SEQ, info), st
+    return None, st
+
+
+def client_tunnel_check(ctx, ssnet):
+    """C07 on the seam between handshake and multiplexer: synchronisation string + first frames in ONE delivery must decode
+    the same as in two, and as under every other cutting (implementation only; the expected sequence is the one sent)."""
+    rng, quick = ctx.rng, ctx.quick()
+    sync_len = 14
+    for n in range(6 if quick else 30):
+        noise = [b"", b"Last login: today\r\n", bytes(rng.randrange(1, 256) for _ in range(rng.randint(1, 60)))][n % 3]
+        frames = [(0, ssnet.CMD_ROUTES, b"2,10.0.0.0,8\n"), (0, ssnet.CMD_PING, b"hi")][:1 + n % 2]
+        for _ in range(rng.randint(0, 4)):
+            frames.append((rng.randint(0, 65535), rng.choice([ssnet.CMD_TCP_DATA, ssnet.CMD_TCP_EOF, ssnet.CMD_PING, ssnet.CMD_HOST_LIST]),
+                           bytes(rng.randrange(256) for _ in range(rng.choice([0, 1, 7, 8, 9, 300, rng.randint(0, 3000)])))))
+        e = len(noise) + sync_len
+        total = e + sum(8 + len(d) for _, _, d in frames)
+        cuts = [("one-delivery", []), ("cut-after-the-string", [e]), ("cut-in-first-header", [e + rng.randint(1, 7)]),
+                ("cut-in-the-string", [e - rng.randint(1, 11)]), ("cut-after-first-frame", [e + 8 + len(frames[0][2])]),
+                ("random", [rng.randint(1, total - 1) for _ in range(rng.randint(1, 6))])]
+        if total <= 400 or not quick:
+            cuts.append(("byte-by-byte", list(range(1, total))))
+        for k, (name, cut) in enumerate(cuts):
+            verb = (None, 0, 1, 2, 3)[(n + k) % 5]
+            bad, st = client_tunnel_run(noise, frames, cut, verb)
+            ctx.case(("client-tunnel", noise, tuple(frames), tuple(cut), verb), nontrivial=True)
+            ctx.count("client_tunnel_runs")
+            ctx.count("client_tunnel_%s" % name)
+            ctx.count("client_tunnel_messages_decoded", len(st["decoded"]))
+            if st["read_waits"]:
+                ctx.count("client_start_reads_that_waited_for_bytes_not_yet_sent", st["read_waits"])
+            if bad:
+                ctx.violation(bad[0], {"client_tunnel": {"noise_hex": noise.hex(), "frames": [[c, k, d.hex()] for c, k, d in frames],
+                                                         "cut_at": cut, "cutting": name, "verbosity": verb},
+                                       "detail": bad[1]})
 
 
 def hs_noise_streams(rng, quick):
@@ -1352,6 +1490,9 @@ def correspondence(ctx):
     t0 = time.time()
     client_start_check(ctx, streams)
     ctx.extra["client_start_check_wall_s"] = round(time.time() - t0, 2)
+    t0 = time.time()
+    client_tunnel_check(ctx, ssnet)
+    ctx.extra["client_tunnel_check_wall_s"] = round(time.time() - t0, 2)
     # (stream, cut, verbosity, model line, implementation outcome, detail of an unexpected exception)
     recs = []
 
@@ -1460,6 +1601,12 @@ def replay(ctx, rp):
         wire, sent, how, calls, start = server_start_run(ssnet, sce)
         bad = server_start_judge(sce, wire, sent, how)
         print("server start:", bad and bad[0], "| first bytes on descriptor 1:", wire[:40])
+        return bad is not None
+    if "client_tunnel" in r:
+        t = r["client_tunnel"]
+        bad, st = client_tunnel_run(bytes.fromhex(t["noise_hex"]), [(c, k, bytes.fromhex(d)) for c, k, d in t["frames"]],
+                                    t["cut_at"], t.get("verbosity"))
+        print("client tunnel:", bad and bad[0][:160], bad and bad[1])
         return bad is not None
     if "client_start" in r:
         chunks = [bytes.fromhex(c) for c in r["client_start"]["deliveries"]]
